@@ -231,6 +231,11 @@ class Queue(Greenlet):
         self.queued = []
         self.active_ids = set()
         self.queued_ids = set()
+        # The storage may announce a new message (wait()) before its write()
+        # has returned the id to enqueue(): ids that reach the timetable while
+        # a write of enqueue() is in progress are remembered until it is done.
+        self._writing = 0
+        self._early_ids = set()
         self.queued_lock = Semaphore(1)
         self.queue_policies = []
         self._use_pool('store_pool', store_pool)
@@ -317,6 +322,8 @@ class Queue(Greenlet):
 
     def _add_queued(self, entry):
         timestamp, id = entry
+        if self._writing:
+            self._early_ids.add(id)
         if id not in self.queued_ids | self.active_ids:
             bisect.insort(self.queued, entry)
             self.queued_ids.add(id)
@@ -335,16 +342,27 @@ class Queue(Greenlet):
         """
         now = time.time()
         envelopes = self._run_policies(envelope)
-        ids = self._pool_imap('store', self.store.write, envelopes,
-                              repeat(now))
+        self._writing += 1
+        try:
+            ids = self._pool_imap('store', self.store.write, envelopes,
+                                  repeat(now))
+        finally:
+            self._writing -= 1
         results = list(zip(envelopes, ids))
-        for env, id in results:
-            if not isinstance(id, BaseException):
-                if self.relay and id not in self.active_ids:
-                    self.active_ids.add(id)
-                    self._pool_spawn('relay', self._attempt, id, env, 0)
-            elif not isinstance(id, QueueError):
-                raise id  # Re-raise exceptions that are not QueueError.
+        try:
+            for env, id in results:
+                if not isinstance(id, BaseException):
+                    # A message the storage announced meanwhile is (or was)
+                    # attempted through the timetable already.
+                    if self.relay and id not in self.active_ids \
+                            and id not in self._early_ids:
+                        self.active_ids.add(id)
+                        self._pool_spawn('relay', self._attempt, id, env, 0)
+                elif not isinstance(id, QueueError):
+                    raise id  # Re-raise exceptions that are not QueueError.
+        finally:
+            if not self._writing:
+                self._early_ids.clear()
         return results
 
     def _load_all(self):
